@@ -78,6 +78,8 @@ type Real struct {
 	UID   map[*astisub.Item]int
 	Items []*astisub.Item // original items by position
 	snap  map[*astisub.Item]string
+	// ValueByUID: the by-value content of every original cue (see ValueSnap), by its uid
+	ValueByUID map[int]string
 }
 
 func lines(t string) []astisub.Line {
@@ -108,7 +110,7 @@ func Build(l List, styles, regions []string) *Real {
 	for _, id := range regions {
 		s.Regions[id] = &astisub.Region{ID: id, InlineStyle: &astisub.StyleAttributes{}}
 	}
-	r := &Real{Subs: s, UID: map[*astisub.Item]int{}, snap: map[*astisub.Item]string{}}
+	r := &Real{Subs: s, UID: map[*astisub.Item]int{}, snap: map[*astisub.Item]string{}, ValueByUID: map[int]string{}}
 	for _, c := range l {
 		it := &astisub.Item{StartAt: time.Duration(c.S), EndAt: time.Duration(c.E), Lines: lines(c.T),
 			Comments: []string{fmt.Sprintf("c%d", c.U)}, Index: c.U + 1, InlineStyle: &astisub.StyleAttributes{SRTBold: true}}
@@ -122,6 +124,7 @@ func Build(l List, styles, regions []string) *Real {
 		r.Items = append(r.Items, it)
 		r.UID[it] = c.U
 		r.snap[it] = ContentSnap(it)
+		r.ValueByUID[c.U] = ValueSnap(it)
 	}
 	return r
 }
@@ -135,6 +138,40 @@ func ContentSnap(it *astisub.Item) string {
 		fmt.Fprintf(&b, "{voice=%q", l.VoiceName)
 		for _, li := range l.Items {
 			fmt.Fprintf(&b, " [%q style=%p inline=%p at=%d]", li.Text, li.Style, li.InlineStyle, li.StartAt)
+		}
+		b.WriteString("}")
+	}
+	return b.String()
+}
+
+// ValueSnap captures the content of an item by VALUE (no addresses): number, comments, ids of the style / region
+// it references, inline attributes, and per line the voice name and the runs with text, inline timestamp, style id
+// and inline attributes. Two items made from one another by copying have equal ValueSnaps.
+func ValueSnap(it *astisub.Item) string {
+	var b strings.Builder
+	sid := func(s *astisub.Style) string {
+		if s == nil {
+			return "-"
+		}
+		return s.ID
+	}
+	attrs := func(a *astisub.StyleAttributes) string {
+		if a == nil {
+			return "-"
+		}
+		// the fields the list model sets, plus a few a copying slip could touch (a full %+v of the 80-field struct
+		// costs more than the operation under test)
+		return fmt.Sprintf("b%t i%t u%t c%t al%q tags%d st%d", a.SRTBold, a.SRTItalics, a.SRTUnderline, a.SRTColor != nil, a.WebVTTAlign, len(a.WebVTTTags), len(a.WebVTTStyles))
+	}
+	rid := "-"
+	if it.Region != nil {
+		rid = it.Region.ID
+	}
+	fmt.Fprintf(&b, "comments=%q style=%s region=%s inline=%s lines=", it.Comments, sid(it.Style), rid, attrs(it.InlineStyle))
+	for _, l := range it.Lines {
+		fmt.Fprintf(&b, "{voice=%q", l.VoiceName)
+		for _, li := range l.Items {
+			fmt.Fprintf(&b, " [%q style=%s inline=%s at=%d]", li.Text, sid(li.Style), attrs(li.InlineStyle), li.StartAt)
 		}
 		b.WriteString("}")
 	}
